@@ -10,7 +10,7 @@
    meets it) and that the value is the minimum over ALL arrangements. *)
 From Coq Require Import ZArith Lia.
 From TW Require Import OptFit Wrap.
-From TW Require Import Partition Bellman.
+From TW Require Import Partition Bellman VsFirstFit.
 
 (* the dynamic program's value is a lower bound for every arrangement (<= 2 line widths) *)
 Theorem C03_lower_bound : forall P (fs : list (frag NumZ)) (lws : list Z),
@@ -46,6 +46,13 @@ Theorem C03_column_minima_satisfiable : forall P (fs : list (frag NumZ)) (lws : 
   ColMin P fs lws (dp_minima NumZ P fs lws).
 Proof. exact dp_minima_ColMin. Qed.
 
+(* hence its cost never exceeds that of the first-fit arrangement, for any penalties *)
+Theorem C03_never_worse_than_first_fit : forall P (fs : list (frag NumZ)) (lws : list Z),
+  (length lws <= 2)%nat -> fs <> [] ->
+  (opt_cost NumZ P fs lws <=
+   arrangement_cost NumZ P fs lws (ranges_of 0 (first_fit (fun f => f) fs lws)))%Z.
+Proof. exact opt_le_first_fit. Qed.
+
 (* the restriction to two line widths is needed: with three the recursion is not first-order *)
 Theorem C03_two_widths_needed :
   ~ (forall P (fs : list (frag NumZ)) (lws : list (T NumZ)) rs, chain (length fs) 0 rs ->
@@ -72,5 +79,6 @@ Print Assumptions C03_lower_bound.
 Print Assumptions C03_optimal_given_column_minima.
 Print Assumptions C03_reference_optimal.
 Print Assumptions C03_column_minima_satisfiable.
+Print Assumptions C03_never_worse_than_first_fit.
 Print Assumptions C03_two_widths_needed.
 Print Assumptions C03_wrap_level.
